@@ -23,6 +23,9 @@ class Repeat(Operation):
 
     def backward_var(self, grad, index, **kwargs):
         a = self.variables[index].data  # type: np.ndarray
+        if np.ndim(self._repeats) == 0:
+            # `repeats` can be a numpy integer or a 0D array
+            self._repeats = int(self._repeats)
         if isinstance(self._repeats, int) or len(self._repeats) == 1:
             if not isinstance(self._repeats, int):
                 (self._repeats,) = self._repeats
